@@ -40,6 +40,7 @@ func runSeq(run *hx.Run, seq int, ops []dbx.Op, gen func() (dbx.Op, bool), repli
 	run.OutLine("new")
 	db := drummer.NewDB(0, 1)
 	var b sm.IStateMachine
+	var twin sm.IStateMachine // the replica as it was before the last "snap" (which replaced it by one restored from its snapshot)
 	// replica C lags: it applies a prefix, stops, and later catches up from A's snapshot installed into the SAME instance
 	var c sm.IStateMachine
 	lagAt, catchAt, caught := -1, -1, false
@@ -163,6 +164,7 @@ func runSeq(run *hx.Run, seq int, ops []dbx.Op, gen func() (dbx.Op, bool), repli
 			if h0 != h1 {
 				c03fail(run, seq, i, done, "hash-after-restore", "hash changed across snapshot/restore")
 			}
+			twin = db // the replica that took the snapshot lives on beside the restored one: same commands, same answers
 			db = ndb
 			post := dbx.TakeDump(db)
 			if pre.Canon() != post.Canon() {
@@ -191,6 +193,32 @@ func runSeq(run *hx.Run, seq int, ops []dbx.Op, gen func() (dbx.Op, bool), repli
 		{
 			res := dbx.Apply(db, op.ToUpdate())
 			results = append(results, res)
+			if twin != nil {
+				rt := dbx.Apply(twin, op.ToUpdate())
+				run.Count("c03:twin_ops")
+				if rt != res {
+					why := fmt.Sprintf("a replica restored from a snapshot answered %s to %s, the replica that took the snapshot (and applied the same commands since) answered %s", res, op.Op, rt)
+					c03fail(run, seq, i, done, "restored-replica-result-differs", why)
+					cp := make([]dbx.Op, len(done))
+					copy(cp, done)
+					switch op.Op {
+					case "report":
+						// the view (C04), the liveness record (C05), the mailboxes (C10), the launch decision (C09) all move on reports
+						for _, prop := range []string{"C04", "C05", "C09", "C10", "C11"} {
+							run.Violate(hx.Violation{Property: prop, Clause: "same_on_every_replica", Signature: "restored-replica-result-differs", What: why, Seq: seq, OpIndex: i, Ops: cp})
+						}
+					case "kv", "shard":
+						run.Violate(hx.Violation{Property: "C13", Clause: "same_on_every_replica", Signature: "restored-replica-result-differs", What: why, Seq: seq, OpIndex: i, Ops: cp})
+					case "tick":
+						run.Violate(hx.Violation{Property: "C09", Clause: "deadline_on_every_replica", Signature: "restored-replica-result-differs", What: why, Seq: seq, OpIndex: i, Ops: cp})
+					case "reqs":
+						for _, prop := range []string{"C09", "C10"} {
+							run.Violate(hx.Violation{Property: prop, Clause: "same_on_every_replica", Signature: "restored-replica-result-differs", What: why, Seq: seq, OpIndex: i, Ops: cp})
+						}
+					}
+					twin = nil
+				}
+			}
 			run.Count(op.Op + ":" + map[bool]string{true: "panic", false: "ok"}[res == "panic"])
 			var post *dbx.Dump
 			if res == "panic" {
